@@ -324,6 +324,9 @@ class Emitter:
             raise TErr(f"{self.u.name}::{env.fn.name}: range expression outside an index")
         if k == "str":
             return Code("()", "str")
+        if k == "try" and getattr(self.u, "try_handler", None):
+            # `e?`: what propagating the error means depends on the unit's encoding of `Result`
+            return self.u.try_handler(self, e, env, hint)
         raise TErr(f"{self.u.name}::{env.fn.name}: expression `{k}` is outside the translated subset")
 
     def cbin(self, e, env, hint):
@@ -381,6 +384,8 @@ class Emitter:
             if op == "-":
                 tmp = env.fresh()
                 return Code(tmp, "usize", pre + [f"let {tmp} ← {self.u.usub} {paren(ca.val)} {paren(cb.val)}"])
+            if op == "&" and t == "usize":
+                return Code(f"({ca.val} &&& {cb.val})", "usize", pre)
         if t in ("u64", "u32"):
             m = {"&": "&&&", "|": "|||", "^": "^^^", "+": "+", "-": "-", "*": "*", "/": "/"}
             if op in m:
@@ -393,6 +398,11 @@ class Emitter:
 
     def cindex(self, e, env):
         base, idx = e[1], e[2]
+        if getattr(self.u, "index_handler", None):
+            # units whose state has no buffer value (`reader.buf()[..]` over the view)
+            r = self.u.index_handler(self, e, env)
+            if r is not None:
+                return r
         cb = self.cexpr(base, env)
         if idx[0] == "range":
             lo = self.cexpr(idx[1], env, "usize") if idx[1] is not None else Code("0", "usize")
@@ -439,7 +449,7 @@ class Emitter:
         if name == "Some":
             c = self.cexpr(args[0], env, opt_inner(hint))
             return Code(f"(some {paren(c.val)})", f"Option<{c.ty}>", c.pre)
-        if name in ("Ok", "Err"):
+        if name in ("Ok", "Err") and name not in self.u.functions:
             c = self.cexpr(args[0], env)
             return Code(f"({'Except.ok' if name == 'Ok' else 'Except.error'} {paren(c.val)})", hint, c.pre)
         # functions of this unit (free functions, `Self::f`)
